@@ -215,6 +215,14 @@ func findSplitLoops(fn *ssa.Function) []splitLoop {
 // minOf: v = min(a, b) written as `v := a; if b < v { v = b }` (any of the
 // equivalent comparison spellings). Returns the two alternatives.
 func minOf(v ssa.Value) (a, b ssa.Value, ok bool, why string) {
+	if call, isCall := v.(*ssa.Call); isCall && len(call.Call.Args) == 2 {
+		if core.IsBuiltin(call, "min") {
+			return call.Call.Args[0], call.Call.Args[1], true, ""
+		}
+		if cal := call.Call.StaticCallee(); cal != nil && cal.Name() == "min" && isMinHelper(cal) {
+			return call.Call.Args[0], call.Call.Args[1], true, ""
+		}
+	}
 	phi, isPhi := v.(*ssa.Phi)
 	if !isPhi || len(phi.Edges) != 2 {
 		return nil, nil, false, "the chunk size is not a two-way choice"
@@ -779,6 +787,73 @@ func runC11(c *core.Ctx) core.Meta {
 		OnlyFuncs: func(name string) bool { return name == "Driver.sendToGPUs" },
 	})
 
+	// ---------------- R11.6 dirtiness is never forgotten early ----------------
+	st6 := c.Rule("R11.6", "buffers are marked dirty whenever a kernel launch request is created, and the dirty marks are not cleared by anything reachable from the copy / launch command handlers (a flush that is only being issued, or that races with a running kernel, does not make later kernel writes visible)", 3)
+	pd.Instrs(func(fn *ssa.Function, in ssa.Instruction) {
+		if core.IsCall(in, core.ModPath+"/amd/protocol.NewLaunchKernelReq") {
+			st6.Instances++
+			marks := false
+			for _, b := range fn.Blocks {
+				for _, i2 := range b.Instrs {
+					if callsFunc(i2, pd.Pkg, "Context.markAllBuffersDirty") {
+						marks = true
+					}
+				}
+			}
+			st6.Ob(marks)
+			st6.Sample("%s: kernel launch marks all buffers dirty: %v", core.FuncName(fn), marks)
+			if !marks {
+				c.ReportAt("R11.6", fn, in.Pos(), "launch-without-dirty-mark", "a kernel launch request is created without marking the context's buffers dirty: a later device-to-host copy skips the flush and reads stale memory")
+			}
+		}
+	})
+	cleaners := pd.Having(func(in ssa.Instruction) bool {
+		s, ok := in.(*ssa.Store)
+		if !ok {
+			return false
+		}
+		f := core.FieldOfAddr(s.Addr)
+		if f == nil || f.Name() != "l2Dirty" {
+			return false
+		}
+		if freshBase(s.Addr.(*ssa.FieldAddr).X) {
+			return false // initialising a newly created buffer
+		}
+		b, isC := core.ConstBool(s.Val)
+		return isC && !b
+	})
+	nClean := 0
+	for fn := range cleaners {
+		name := core.FuncName(fn)
+		direct := false
+		for _, b := range fn.Blocks {
+			for _, in := range b.Instrs {
+				if s, ok := in.(*ssa.Store); ok {
+					if f := core.FieldOfAddr(s.Addr); f != nil && f.Name() == "l2Dirty" && !freshBase(s.Addr.(*ssa.FieldAddr).X) {
+						if bv, isC := core.ConstBool(s.Val); isC && !bv {
+							direct = true
+						}
+					}
+				}
+			}
+		}
+		st6.Instances++
+		if direct {
+			nClean++
+			st6.Ob(true) // the helper itself; its callers are judged
+			continue
+		}
+		// a function that (transitively) clears dirty marks: allowed only for buffer creation
+		ok := name == "Driver.AllocateMemory" || name == "Driver.AllocateUnifiedMemory"
+		st6.Ob(ok)
+		if !ok {
+			c.ReportAt("R11.6", fn, fn.Pos(), "clears-dirty:"+name, name+" clears the dirty marks of buffers: only the completion of a flush with no kernel in flight could justify that; done when a flush is merely issued (or while a kernel of another queue runs) it hides later kernel writes from device-to-host copies")
+		}
+	}
+	if nClean == 0 {
+		c.Notes = append(c.Notes, "R11.6: no function clears l2Dirty any more (the helper is gone); the who-may rule has no subject")
+	}
+
 	// ---------------- R02.4 flush before copy (shared with C02) ----------------
 	checkFlushBeforeCopy(c, pd, pc, prov, "R11.5")
 
@@ -975,4 +1050,28 @@ func structFieldLoad(v ssa.Value) (ssa.Value, string) {
 		return stored, core.FieldOfAddr(fa).Name()
 	}
 	return nil, ""
+}
+
+// isMinHelper: a two-parameter function returning the smaller of its parameters.
+func isMinHelper(fn *ssa.Function) bool {
+	if len(fn.Params) != 2 || len(fn.Blocks) == 0 {
+		return false
+	}
+	for _, b := range fn.Blocks {
+		for _, in := range b.Instrs {
+			r, ok := in.(*ssa.Return)
+			if !ok {
+				continue
+			}
+			if len(r.Results) != 1 {
+				return false
+			}
+			if r.Results[0] != ssa.Value(fn.Params[0]) && r.Results[0] != ssa.Value(fn.Params[1]) {
+				if _, isPhi := r.Results[0].(*ssa.Phi); !isPhi {
+					return false
+				}
+			}
+		}
+	}
+	return true
 }
